@@ -10,8 +10,18 @@
                           by one; on a failing Listen the ones opened so far are NOT closed),
                           Instance.Restart (listeners of the old instance are inherited by address through
                           dup'ed descriptors; only on success the old instance is stopped and spliced out)
-     sigtrap_posix.go     SIGUSR1: clone hooks, purge, Restart(instances[0]), restore on error
-                          (every failing start / validation also restores the registry it found on entry)
+     sigtrap_posix.go     SIGUSR1: ask the loader for the updated Casketfile FIRST (a loader error ends the
+                          handler there, nothing has been touched); then clone hooks, purge, Restart(instances[0]),
+                          restore on error (every failing start / validation also restores the registry it found
+                          on entry).  [do_sigusr1_gen true] is the order "purge, then load" (a seeded defect)
+     casket.go            Instance.Restart recovers a panic of a plugin's setup and returns (nil, nil): the
+                          deferred clean-up of startWithListenerFds sees err == nil, so the half-made instance
+                          stays in [instances], the hooks registered so far stay, and the SIGUSR1 handler (err ==
+                          nil) does not restore the registry it purged ([OPanic], [do_reload_panic])
+     proxy/upstream.go    NewStaticUpstreams starts the health-check worker of an upstream while the directive
+                          is parsed; only the OnShutdown callback of the instance stops it, and a discarded
+                          instance never runs its callbacks: the worker of a rejected configuration goes on
+                          probing the backend ([EProxy], [g_probers])
      plugins.go           RegisterEventHook / cloneEventHooks / purgeEventHooks / restoreEventHooks
      onevent/on.go        `on`: registers its hooks in the global registry while the directive is set up
      basicauth/basicauth.go GetHtpasswdMatcher: package-level cache keyed by file name, guarded by a
@@ -42,14 +52,16 @@ Definition env_get (e : env) (f : N) : htfile :=
 Definition env_set (e : env) (f : N) (h : htfile) : env := (f, h) :: e.
 
 (* ---------------------------------------------------------------- configurations *)
-Inductive pfault := PNone | PSyntax | PUnknown | PImport.
+(* PLoader: the Casketfile cannot even be loaded (file removed or unreadable, loader plugin failing) *)
+Inductive pfault := PNone | PSyntax | PUnknown | PImport | PLoader.
 
 (* the process-global effect of a directive, in directive execution order *)
 Inductive effect :=
 | EBad                                  (* a directive whose setup returns an error *)
 | EOn (n : nat)                         (* on: n hooks registered in the global registry *)
 | ELog (f size : N) (ok : bool)         (* log: startup callback; ok = the file can be opened *)
-| EAuth (f u : N).                      (* basicauth u htpasswd=f *)
+| EAuth (f u : N)                       (* basicauth u htpasswd=f *)
+| EProxy.                               (* proxy with a health check: the worker starts while the directive is parsed *)
 
 Inductive addr := AEph (n : N) | ABusy. (* 127.0.0.n:0  |  a port somebody else is listening on *)
 Definition addr_eqb (a b : addr) : bool :=
@@ -64,7 +76,9 @@ Record cfg := { c_id : N; c_parse : pfault; c_effs : list effect; c_addrs : list
 (* Execute = ValidateAndExecuteDirectives(justValidate = false) driven through the API without starting
    servers; like a validation it ends after the directives (parsing callbacks have no global effect here) *)
 Inductive mode := Load | Validate | Reload | Sigusr1 | Execute.
-Inductive op := OAttempt (m : mode) (c : cfg) | OWrite (f : N) (h : htfile).
+(* OPanic sig c: reload (Instance.Restart, or SIGUSR1 when [sig]) of [c] followed by a plugin directive,
+   executed after all the others, whose setup panics *)
+Inductive op := OAttempt (m : mode) (c : cfg) | OWrite (f : N) (h : htfile) | OPanic (sig : bool) (c : cfg).
 
 (* ---------------------------------------------------------------- process-global state *)
 Record sock := { s_id : N; s_addr : addr; s_fds : nat }.
@@ -73,7 +87,8 @@ Record inst := {
   i_cfg : N;                      (* marker of the configuration it serves *)
   i_servers : list (addr * N);    (* listen address and socket of each server *)
   i_auth : option (N * N);        (* basicauth: user and the password its matcher accepts *)
-  i_log : option N                (* log file whose roller it writes through *)
+  i_log : option N;               (* log file whose roller it writes through *)
+  i_probe : list N                (* the health-check workers its OnShutdown callbacks stop *)
 }.
 
 Record gstate := {
@@ -83,31 +98,35 @@ Record gstate := {
   g_htlock : bool;                        (* basicauth.htpasswordsMu is held *)
   g_rollers : list (N * N);               (* httpserver.lumberjacks: file -> rotate size *)
   g_socks : list sock;                    (* listening sockets of the process with their descriptors *)
-  g_next : N                              (* next socket identity *)
+  g_next : N;                             (* next socket identity *)
+  g_probers : list N                      (* running health-check workers: step of the attempt that started each *)
 }.
 
 Definition g0 : gstate :=
   {| g_insts := []; g_hooks := []; g_htcache := []; g_htlock := false; g_rollers := [];
-     g_socks := []; g_next := 1 |}.
+     g_socks := []; g_next := 1; g_probers := [] |}.
 
 Definition set_insts (g : gstate) (x : list inst) : gstate :=
   {| g_insts := x; g_hooks := g_hooks g; g_htcache := g_htcache g; g_htlock := g_htlock g;
-     g_rollers := g_rollers g; g_socks := g_socks g; g_next := g_next g |}.
+     g_rollers := g_rollers g; g_socks := g_socks g; g_next := g_next g; g_probers := g_probers g |}.
 Definition set_hooks (g : gstate) (x : list N) : gstate :=
   {| g_insts := g_insts g; g_hooks := x; g_htcache := g_htcache g; g_htlock := g_htlock g;
-     g_rollers := g_rollers g; g_socks := g_socks g; g_next := g_next g |}.
+     g_rollers := g_rollers g; g_socks := g_socks g; g_next := g_next g; g_probers := g_probers g |}.
 Definition set_htcache (g : gstate) (x : list (N * htfile)) : gstate :=
   {| g_insts := g_insts g; g_hooks := g_hooks g; g_htcache := x; g_htlock := g_htlock g;
-     g_rollers := g_rollers g; g_socks := g_socks g; g_next := g_next g |}.
+     g_rollers := g_rollers g; g_socks := g_socks g; g_next := g_next g; g_probers := g_probers g |}.
 Definition set_htlock (g : gstate) (x : bool) : gstate :=
   {| g_insts := g_insts g; g_hooks := g_hooks g; g_htcache := g_htcache g; g_htlock := x;
-     g_rollers := g_rollers g; g_socks := g_socks g; g_next := g_next g |}.
+     g_rollers := g_rollers g; g_socks := g_socks g; g_next := g_next g; g_probers := g_probers g |}.
 Definition set_rollers (g : gstate) (x : list (N * N)) : gstate :=
   {| g_insts := g_insts g; g_hooks := g_hooks g; g_htcache := g_htcache g; g_htlock := g_htlock g;
-     g_rollers := x; g_socks := g_socks g; g_next := g_next g |}.
+     g_rollers := x; g_socks := g_socks g; g_next := g_next g; g_probers := g_probers g |}.
 Definition set_socks (g : gstate) (x : list sock) (n : N) : gstate :=
   {| g_insts := g_insts g; g_hooks := g_hooks g; g_htcache := g_htcache g; g_htlock := g_htlock g;
-     g_rollers := g_rollers g; g_socks := x; g_next := n |}.
+     g_rollers := g_rollers g; g_socks := x; g_next := n; g_probers := g_probers g |}.
+Definition set_probers (g : gstate) (x : list N) : gstate :=
+  {| g_insts := g_insts g; g_hooks := g_hooks g; g_htcache := g_htcache g; g_htlock := g_htlock g;
+     g_rollers := g_rollers g; g_socks := g_socks g; g_next := g_next g; g_probers := x |}.
 
 Inductive outcome := ROk | RErr | RHang.
 Definition is_ok (r : outcome) : bool := match r with ROk => true | _ => false end.
@@ -164,6 +183,15 @@ Fixpoint exec_effs (step : N) (e : env) (effs : list effect) (g : gstate) (l : l
       | (ROk, g', None) => (RErr, g', l)
       | (x, g', _) => (x, g', l)
       end
+  | EProxy :: r => exec_effs step e r (set_probers g (g_probers g ++ [step])) l
+  end.
+
+(* the workers a configuration starts when all its directives are executed *)
+Fixpoint probes_of (step : N) (effs : list effect) : list N :=
+  match effs with
+  | [] => []
+  | EProxy :: r => step :: probes_of step r
+  | _ :: r => probes_of step r
   end.
 
 (* startup callbacks (Logger.Start): the roller of a file is created on first use and kept *)
@@ -231,7 +259,8 @@ Definition start_body (step : N) (e : env) (c : cfg) (old : list (addr * N)) (g 
         | ROk =>
             let '(r3, g3, srv) := start_servers old (c_addrs c) g2 [] in
             match r3 with
-            | ROk => (ROk, g3, Some {| i_cfg := c_id c; i_servers := srv; i_auth := l_auth l; i_log := l_log l |})
+            | ROk => (ROk, g3, Some {| i_cfg := c_id c; i_servers := srv; i_auth := l_auth l; i_log := l_log l;
+                                       i_probe := probes_of step (c_effs c) |})
             | x => (x, set_socks g3 (g_socks g3) (g_next g2), None)  (* the identities of the closed sockets are free again *)
             end
         | x => (x, g2, None)
@@ -250,9 +279,12 @@ Definition start_with (step : N) (e : env) (c : cfg) (old : list (addr * N)) (g 
   | x => (x, set_hooks g' (g_hooks g), oi)
   end.
 
-(* Instance.Stop: every server closes its descriptor *)
+(* Instance.Stop: every server closes its descriptor; the OnShutdown callbacks stop its health-check workers *)
+Definition stop_probers (own l : list N) : list N :=
+  filter (fun s => negb (existsb (N.eqb s) own)) l.
 Definition stop_inst (g : gstate) (i : inst) : gstate :=
-  set_socks g (fold_left close_fd (map snd (i_servers i)) (g_socks g)) (g_next g).
+  set_probers (set_socks g (fold_left close_fd (map snd (i_servers i)) (g_socks g)) (g_next g))
+              (stop_probers (i_probe i) (g_probers g)).
 
 Definition do_load (step : N) (e : env) (c : cfg) (g : gstate) : outcome * gstate :=
   match start_with step e c [] g with
@@ -283,18 +315,59 @@ Definition do_reload (step : N) (e : env) (c : cfg) (g : gstate) : outcome * gst
       end
   end.
 
-(* the SIGUSR1 handler *)
-Definition do_sigusr1 (step : N) (e : env) (c : cfg) (g : gstate) : outcome * gstate :=
+(* the SIGUSR1 handler: the updated Casketfile is loaded first; when the loader fails the handler is done and
+   nothing has been touched.  [purge_first = true] is the handler with "back up and purge the hooks" moved in
+   front of the load: its early exit leaves the registry purged (kept to document that seeded defect) *)
+Definition loader_fails (c : cfg) : bool := match c_parse c with PLoader => true | _ => false end.
+Definition do_sigusr1_gen (purge_first : bool) (step : N) (e : env) (c : cfg) (g : gstate) : outcome * gstate :=
   match g_insts g with
   | [] => (RErr, g)
   | _ =>
-      let saved := g_hooks g in
-      let '(r, g') := do_reload step e c (set_hooks g []) in
-      match r with
-      | ROk => (ROk, g')
-      | x => (x, set_hooks g' saved)
-      end
+      if loader_fails c then (RErr, if purge_first then set_hooks g [] else g)
+      else
+        let saved := g_hooks g in
+        let '(r, g') := do_reload step e c (set_hooks g []) in
+        match r with
+        | ROk => (ROk, g')
+        | x => (x, set_hooks g' saved)
+        end
   end.
+Definition do_sigusr1 := do_sigusr1_gen false.
+
+(* a panic in the setup of a plugin directive that is executed after all the others, during a reload:
+   Restart recovers it and returns (nil, nil).  Nothing of the deferred clean-up happens (it keys on
+   err != nil): the half-made instance stays in the list, the hooks registered so far stay; after SIGUSR1
+   the purged registry is not restored.  When an earlier directive fails the panic is not reached. *)
+Definition zombie (step : N) (c : cfg) : inst :=
+  {| i_cfg := c_id c; i_servers := []; i_auth := None; i_log := None; i_probe := probes_of step (c_effs c) |}.
+
+Definition do_reload_panic (step : N) (e : env) (c : cfg) (g : gstate) : outcome * gstate :=
+  match g_insts g with
+  | [] => (RErr, g)
+  | _ :: _ =>
+      if parse_ok c then
+        match exec_effs step e (c_effs c) g l0 with
+        | (ROk, g1, _) => (RErr, set_insts g1 (g_insts g1 ++ [zombie step c]))
+        | _ => do_reload step e c g
+        end
+      else do_reload step e c g
+  end.
+
+Definition do_sigusr1_panic (step : N) (e : env) (c : cfg) (g : gstate) : outcome * gstate :=
+  match g_insts g with
+  | [] => (RErr, g)
+  | _ :: _ =>
+      if loader_fails c then (RErr, g)
+      else if parse_ok c then
+        match exec_effs step e (c_effs c) (set_hooks g []) l0 with
+        | (ROk, g1, _) => (RErr, set_insts g1 (g_insts g1 ++ [zombie step c]))
+        | _ => do_sigusr1 step e c g
+        end
+      else do_sigusr1 step e c g
+  end.
+
+Definition attempt_panic (sig : bool) (step : N) (e : env) (c : cfg) (g : gstate) : outcome * gstate :=
+  if sig then do_sigusr1_panic step e c g else do_reload_panic step e c g.
 
 Definition attempt (m : mode) (step : N) (e : env) (c : cfg) (g : gstate) : outcome * gstate :=
   match m with
@@ -310,6 +383,7 @@ Definition step_op (step : N) (o : op) (eg : env * gstate) : outcome * (env * gs
   match o with
   | OAttempt m c => let '(r, g') := attempt m step (fst eg) c (snd eg) in (r, (fst eg, g'))
   | OWrite f h => (ROk, (env_set (fst eg) f h, snd eg))
+  | OPanic sig c => let '(r, g') := attempt_panic sig step (fst eg) c (snd eg) in (r, (fst eg, g'))
   end.
 
 (* runs a history, numbering the steps from [step]; returns the outcomes and the final state *)
@@ -329,6 +403,7 @@ Definition eff_valid (e : env) (x : effect) : bool :=
   | EAuth f u =>
       let h := env_get e f in
       h_present h && negb (h_bad h) && match assoc u (h_users h) with Some _ => true | None => false end
+  | EProxy => true
   end.
 Definition addr_free (a : addr) : bool := match a with ABusy => false | AEph _ => true end.
 Definition cfg_valid (e : env) (c : cfg) : bool :=
@@ -353,15 +428,27 @@ Record obs := {
   o_fds : N;
   o_sites : list (list N);
   o_auth : list (list N);
-  o_roll : N
+  o_roll : N;
+  o_fired : list N;          (* hooks (by birth step) that ran when the events were emitted *)
+  o_probe : list N           (* attempts (by step) whose health-check workers probed the backend *)
 }.
 
 Definition res_code (r : outcome) : N := match r with ROk => 0 | RErr => 1 | RHang => 3 end.
 
 Definition auth_view (i : inst) : list N :=
-  match i_auth i with
-  | None => [2; 2; 2]
-  | Some (_, pw) => [4; if pw =? 1 then 2 else 4; if pw =? 2 then 2 else 4]
+  match i_servers i with
+  | [] => [0; 0; 0]                      (* nobody to ask *)
+  | _ =>
+      match i_auth i with
+      | None => [2; 2; 2]
+      | Some (_, pw) => [4; if pw =? 1 then 2 else 4; if pw =? 2 then 2 else 4]
+      end
+  end.
+
+Fixpoint dedup (l : list N) : list N :=
+  match l with
+  | [] => []
+  | x :: r => if existsb (N.eqb x) r then dedup r else x :: dedup r
   end.
 
 Definition roll_view (g : gstate) : N :=
@@ -390,7 +477,9 @@ Definition predict (r : outcome) (roll : bool) (g : gstate) : obs :=
      o_fds := N.of_nat (sum_fds (g_socks g));
      o_sites := map (fun i => map (fun _ => i_cfg i) (i_servers i)) (g_insts g);
      o_auth := map auth_view (g_insts g);
-     o_roll := if roll && is_ok r then roll_view g else 0 |}.
+     o_roll := if roll && is_ok r then roll_view g else 0;
+     o_fired := g_hooks g;
+     o_probe := dedup (g_probers g) |}.
 
 Definition lN_eqb := list_beq N.eqb.
 Definition llN_eqb := list_beq lN_eqb.
@@ -398,7 +487,8 @@ Definition llN_eqb := list_beq lN_eqb.
 Definition obs_agree (m o : obs) : bool :=
   (o_res m =? o_res o) && (o_ninst m =? o_ninst o) && lN_eqb (o_hooks m) (o_hooks o)
   && Nat.eqb (length (o_socks m)) (length (o_socks o)) && (o_fds m =? o_fds o)
-  && llN_eqb (o_sites m) (o_sites o) && llN_eqb (o_auth m) (o_auth o) && (o_roll m =? o_roll o).
+  && llN_eqb (o_sites m) (o_sites o) && llN_eqb (o_auth m) (o_auth o) && (o_roll m =? o_roll o)
+  && lN_eqb (o_fired m) (o_fired o) && lN_eqb (o_probe m) (o_probe o).
 
 (* the order in which startServers walks the servers is the iteration order of a Go map: when a
    configuration contains the busy address, every position of it among the others is possible *)
@@ -431,10 +521,16 @@ Fixpoint accepts (step : N) (h : list (op * bool)) (os : list obs) (states : lis
               flat_map (fun c' =>
                 let '(x, g') := attempt m step (fst eg) c' (snd eg) in
                 if obs_agree (predict x roll g') ob then [(fst eg, g')] else []) (variants c)) states
+        | OPanic sig c =>
+            if (o_res ob =? 4) || (o_res ob =? 5) then states else
+            flat_map (fun eg =>
+              flat_map (fun c' =>
+                let '(x, g') := attempt_panic sig step (fst eg) c' (snd eg) in
+                if obs_agree (predict x roll g') ob then [(fst eg, g')] else []) (variants c)) states
         end in
       match o with
       | OWrite _ _ => accepts (step + 1) r ros next
-      | OAttempt _ _ => if Nat.eqb (length next) 0 then false else accepts (step + 1) r ros next
+      | _ => if Nat.eqb (length next) 0 then false else accepts (step + 1) r ros next
       end
   end.
 
@@ -442,13 +538,18 @@ Fixpoint accepts (step : N) (h : list (op * bool)) (os : list obs) (states : lis
 (* a failed attempt changed nothing that can be observed *)
 Definition frame (a b : obs) : bool :=
   (o_ninst a =? o_ninst b) && lN_eqb (o_hooks a) (o_hooks b) && lN_eqb (o_socks a) (o_socks b)
-  && (o_fds a =? o_fds b) && llN_eqb (o_sites a) (o_sites b) && llN_eqb (o_auth a) (o_auth b).
+  && (o_fds a =? o_fds b) && llN_eqb (o_sites a) (o_sites b) && llN_eqb (o_auth a) (o_auth b)
+  && lN_eqb (o_fired a) (o_fired b) && lN_eqb (o_probe a) (o_probe b).
 
 (* indistinguishable from the run in which the attempts on invalid configurations never happened *)
 Definition as_if (a r : obs) : bool :=
   (o_res a =? o_res r) && (o_ninst a =? o_ninst r) && lN_eqb (o_hooks a) (o_hooks r)
   && Nat.eqb (length (o_socks a)) (length (o_socks r)) && (o_fds a =? o_fds r)
-  && llN_eqb (o_sites a) (o_sites r) && llN_eqb (o_auth a) (o_auth r) && (o_roll a =? o_roll r).
+  && llN_eqb (o_sites a) (o_sites r) && llN_eqb (o_auth a) (o_auth r) && (o_roll a =? o_roll r)
+  && lN_eqb (o_fired a) (o_fired r) && lN_eqb (o_probe a) (o_probe r).
+
+(* every hook of the registry is reached by EmitEvent, and nothing else is *)
+Definition hooks_live (o : obs) : bool := lN_eqb (o_fired o) (o_hooks o).
 
 Definition bounded (o : obs) : bool :=
   negb (o_res o =? 2) && negb (o_res o =? 3) && negb (o_slow o).
@@ -466,7 +567,10 @@ Fixpoint spec_hist (e : env) (h : list (op * bool)) (prev : obs) (full ref : lis
       && (if attempt_valid m e c
           then as_if o ro && (if needs_instance m then true else o_res o =? 0)
           else negb (o_res o =? 0))
+      && hooks_live o
       && spec_hist e r o fr rr
+  | (OPanic _ _, _) :: r, o :: fr, _ :: rr =>     (* never a valid attempt: it must fail and leave nothing behind *)
+      bounded o && negb (o_res o =? 0) && frame prev o && hooks_live o && spec_hist e r o fr rr
   | _, _, _ => false      (* the history was not completed (hang, crash) or the traces are malformed *)
   end.
 
@@ -490,6 +594,8 @@ Definition no_auth (effs : list effect) : bool :=
   forallb (fun x => match x with EAuth _ _ => false | _ => true end) effs.
 Definition no_log (effs : list effect) : bool :=
   forallb (fun x => match x with ELog _ _ _ => false | _ => true end) effs.
+Definition no_proxy (effs : list effect) : bool :=
+  forallb (fun x => match x with EProxy => false | _ => true end) effs.
 
 (* nothing is closed: every socket is still there with at least as many descriptors *)
 Definition socks_le (a b : list sock) : Prop :=
@@ -509,7 +615,13 @@ Definition wf (g : gstate) : Prop :=
 (* two states that differ at most in what the htpasswd cache holds *)
 Definition same_but_cache (g g' : gstate) : Prop :=
   g_insts g' = g_insts g /\ g_hooks g' = g_hooks g /\ g_htlock g' = g_htlock g /\
-  g_rollers g' = g_rollers g /\ g_socks g' = g_socks g /\ g_next g' = g_next g.
+  g_rollers g' = g_rollers g /\ g_socks g' = g_socks g /\ g_next g' = g_next g /\ g_probers g' = g_probers g.
+
+(* two states that differ at most in the two registries a failed attempt still writes to (the roller map,
+   F-C08-3, and the list of health-check workers, F-C08-5) and in what the transparent cache holds *)
+Definition same_but_leaks (g g' : gstate) : Prop :=
+  g_insts g' = g_insts g /\ g_hooks g' = g_hooks g /\ g_htlock g' = g_htlock g /\
+  g_socks g' = g_socks g /\ g_next g' = g_next g.
 
 (* GetHtpasswdMatcher without a cache: what the file holds now *)
 Definition lookup_now (e : env) (f u : N) : outcome * option N :=
@@ -519,10 +631,10 @@ Definition lookup_now (e : env) (f u : N) : outcome * option N :=
   else match assoc u (h_users h) with Some pw => (ROk, Some pw) | None => (RErr, None) end.
 
 (* the faithful model leaves something behind that matters exactly through the rollers of startup callbacks
-   that ran (the htpasswd cache may change, but it is transparent: it is consulted only for the version of
-   the file that is on disk now) *)
+   that ran and the health-check workers of the proxy directives that were set up (the htpasswd cache may
+   change, but it is transparent: it is consulted only for the version of the file that is on disk now) *)
 Definition harmless0 (m : mode) (c : cfg) : bool :=
-  match m with Validate | Execute => true | _ => no_log (c_effs c) end.
+  no_proxy (c_effs c) && match m with Validate | Execute => true | _ => no_log (c_effs c) end.
 
 (* only what an attempt reaches matters: nothing of a configuration that does not parse; of one with a
    bad directive the directives before it, without the startup callbacks they merely schedule *)
@@ -545,17 +657,22 @@ Fixpoint attempts_failed (h : list op) (rs : list outcome) : Prop :=
   | [], [] => True
   | OWrite _ _ :: h', _ :: rs' => attempts_failed h' rs'
   | OAttempt _ _ :: h', r :: rs' => r <> ROk /\ attempts_failed h' rs'
+  | OPanic _ _ :: h', r :: rs' => r <> ROk /\ attempts_failed h' rs'
   | _, _ => False
   end.
 
+(* a contained panic is never harmless (F-C08-6) *)
 Definition harmless_op (o : op) : bool :=
-  match o with OWrite _ _ => true | OAttempt m c => harmless m c end.
+  match o with OWrite _ _ => true | OAttempt m c => harmless m c | OPanic _ _ => false end.
+Definition returns_op (o : op) : bool :=
+  match o with OPanic _ _ => false | _ => true end.
 
 Fixpoint writes (h : list op) (e : env) : env :=
   match h with
   | [] => e
   | OWrite f hf :: r => writes r (env_set e f hf)
   | OAttempt _ _ :: r => writes r e
+  | OPanic _ _ :: r => writes r e
   end.
 
 Definition alive (g : gstate) (i : inst) : Prop :=
